@@ -5,8 +5,28 @@ from hist_checks import Batch, triage, determinism_selftest, exec_plans
 from check_hist import conclude, handle_candidates
 
 
-def symbolize(exe, detail):
-    return detail
+def symbolize(exe, cls):
+    """'C14:data-race:<pc>:<pc>' -> ' [src/is_tld.c:21 is_tld / ...]' using llvm-symbolizer on module-relative pcs"""
+    parts = cls.split(":")
+    if len(parts) != 4 or parts[1] != "data-race":
+        return ""
+    out = []
+    for pc in parts[2:]:
+        for tool in ("llvm-symbolizer-14", "llvm-symbolizer", "addr2line"):
+            try:
+                if tool == "addr2line":
+                    r = subprocess.run([tool, "-f", "-e", exe, "0x" + pc], stdout=subprocess.PIPE, stderr=subprocess.DEVNULL, text=True, timeout=20)
+                else:
+                    r = subprocess.run([tool, "--obj=" + exe, "0x" + pc], stdout=subprocess.PIPE, stderr=subprocess.DEVNULL, text=True, timeout=20)
+                lines = [l for l in r.stdout.splitlines() if l.strip()]
+                if len(lines) >= 2:
+                    fn, loc = lines[0], lines[1]
+                    loc = loc.replace(build.REPO + "/", "")
+                    out.append("%s (%s)" % (loc, fn))
+                    break
+            except Exception:
+                continue
+    return " [sites: " + " / ".join(out) + "]" if out else ""
 
 
 def main(tier, replay=None):
@@ -47,6 +67,8 @@ def main(tier, replay=None):
             exe_v, _ = build.build_sched(vn, defs)
             batches.append(Batch("swarm" + vn, exe_v, "C14", "swarm", seed + 3, 10**8, 90, W, extra=extra("swarm" + vn)).run())
     violations, known, nondet = handle_candidates("C14", batches, budget=250)
+    for v in violations:
+        v["detail"] = v["detail"] + symbolize(exe, v["cls"])
     inter = set()
     for p in ifiles:
         try:
